@@ -368,6 +368,13 @@ func (e *env) runPeer(c *kit.Case, w *world, tg target) {
 	}{
 		{"share-index-zero", 0}, {"share-index-n-plus-1", int32(w.n + 1)}, {"share-index-negative", -1},
 		{"share-index-negative", -int32(share)}, {"share-index-huge", 1<<31 - 1}, {"share-index-other-peer", int32(otherShare)},
+		// indices that any narrowing conversion, mask or modulus would fold onto the signer's own index:
+		// share + 2^k (k = 4, 8, 16, 24, 30), share - 2^8 (negative), share + n, share + 100·n
+		{"share-index-congruent-to-signer", int32(share) + 1<<4}, {"share-index-congruent-to-signer", int32(share) + 1<<8},
+		{"share-index-congruent-to-signer", int32(share) + 2<<8}, {"share-index-congruent-to-signer", int32(share) + 1<<16},
+		{"share-index-congruent-to-signer", int32(share) + 1<<24}, {"share-index-congruent-to-signer", int32(share) + 1<<30},
+		{"share-index-congruent-to-signer", int32(share) - 1<<8}, {"share-index-congruent-to-signer", int32(share) - 1<<16},
+		{"share-index-congruent-to-signer", int32(share + w.n)}, {"share-index-congruent-to-signer", int32(share + 100*w.n)},
 	} {
 		en := entryOf(v, deepCopy(base), share)
 		en.ShareIdx = sa.idx
